@@ -62,6 +62,12 @@ func allSpecs() map[string]*PropSpec {
 		Assumptions: []string{"Initialize is handled before any other message (LSP lifecycle)", "handlers are dispatched serially by jsonrpc2 (re-checked by C-ROOTS)"},
 		Rules:       []func(*Ctx){ruleConcRoots, ruleLockOrder, ruleBlock, ruleLockset, ruleLeak},
 	})
+	add(&PropSpec{
+		ID:          "C19",
+		Explanation: "T6: every leaf of the settings struct (enumerated from the type definitions) is assigned by the settings parser in a nested-key and a dotted-key form with the same spelling, each assignment guarded by its converter's ok result and fed from the converted value (ill-typed or unknown entries leave the previous value unchanged); no key feeds two leaves; every numeric leaf has a non-positive guard in the normaliser; every leaf is read by some feature outside the parser. C19-CONVERT: converters accept by type only (no range filter that would bypass the normaliser's default fallback, boolean spellings true/false only). C19-TOTAL: no module function reachable from the settings parser contains an unchecked assertion, index, slice, non-constant division or panic, and its recursion is on a member of its argument. C-LOCKSET on the settings struct and atomic read-modify-write of a refresh (C-RMW).",
+		NotDecided:  "feature switches after initialisation (capabilities are computed once in Initialize); that a recognised value changes behaviour in the intended way (value semantics of each feature).",
+		Rules:       []func(*Ctx){ruleSettings, ruleLockset},
+	})
 	return m
 }
 
